@@ -303,8 +303,10 @@ mod repr {
         let b = lhs;
 
         // residue = g - rhs * b
+        // (the residue is a multiple of lhs: it must be at least as long as lhs for the exact division below,
+        // which is not the case when b is short, e.g. b = 1 when rhs divides lhs)
         let brhs_len = rhs_clone.len() + b.len();
-        let (residue, mut memory) = memory.allocate_slice_fill(brhs_len + 1, 0);
+        let (residue, mut memory) = memory.allocate_slice_fill((brhs_len + 1).max(lhs_len), 0);
         mul::multiply(&mut residue[..brhs_len], rhs_clone, &b, &mut memory);
         match b_sign {
             Sign::Negative => {
